@@ -35,8 +35,10 @@ REQUIRED_REACH = ["composeinfo.VariantBase.add", "composeinfo.VariantBase._get_a
                   "composeinfo.VariantBase.get_variants", "composeinfo.Variant._validate_uid", "composeinfo.Variant._validate_parent_arch"]
 REQUIRED_MONITORS = ["add-outcome", "forest-after-call", "invariant-walk", "lookup", "get-variants"]
 KINDS = ["valid", "valid", "valid", "dup-id", "dup-uid", "foreign-arch", "foreign-arch-first-child", "misaligned-uid", "bad-id", "cycle", "readd",
-         "cycle-respelled", "attached-elsewhere", "attached-elsewhere-respelled"]
+         "cycle-respelled", "attached-elsewhere", "attached-elsewhere-respelled", "detached-subtree", "detached-dup-subtree"]
 CLASS_FLOORS = dict(("op-" + k, 10) for k in set(KINDS))
+CLASS_FLOORS["op-detached-child"] = 10
+CLASS_FLOORS["detached-subtree-refused-for-inner-uid"] = 5
 CLASS_FLOORS.update({"ten-or-more-siblings": 10, "depth-3": 10, "dashed-top": 5, "after-reload": 10, "query-recursive": 50, "query-arch-nobody-has": 20,
                      "query-arch-src": 20, "query-types-subset": 50, "query-self": 10, "query-inner": 20,
                      "child-id-repeats-ancestor-id": 3, "refused": 30, "accepted": 30})
@@ -60,9 +62,10 @@ class Forest(object):
     def __init__(self):
         self.specs = []       # handle -> spec
         self.parent = {}      # attached handle -> parent handle or None (top level)
+        self.dparent = {}     # member of a DETACHED subtree (built bottom-up, not in the forest yet) -> its parent handle
 
     def children(self, h):
-        return [c for c, p in self.parent.items() if p == h]
+        return [c for c, p in self.parent.items() if p == h] + [c for c, p in self.dparent.items() if p == h]
 
     def uid_of(self, h):
         return self.specs[h]["uid"]
@@ -71,8 +74,19 @@ class Forest(object):
         out = []
         while h is not None:
             out.append(h)
-            h = self.parent.get(h)
+            h = self.parent.get(h) if h in self.parent else self.dparent.get(h)
         return out
+
+    def subtree(self, h):
+        out, todo = [], [h]
+        while todo:
+            x = todo.pop()
+            out.append(x)
+            todo.extend(self.children(x))
+        return out
+
+    def is_detached(self, h):
+        return h is not None and h not in self.parent
 
     def depth(self, h):
         return len(self.ancestors_or_self(h))
@@ -80,6 +94,8 @@ class Forest(object):
     def predict(self, target, h):
         """target: handle or None (top-level container)."""
         spec = self.specs[h]
+        if h in self.dparent:
+            return "grey", "member of a detached subtree offered again"
         if h in self.parent:
             if self.parent[h] == target:
                 return "either", "same object re-added to its own parent"
@@ -103,11 +119,24 @@ class Forest(object):
             if self.specs[c]["id"] == vid:
                 return "refuse", "duplicate id"
         # UIDs are unique in the whole forest: a child 'Tools' of 'E' and a top-level 'E-Tools' (id 'ETools') share one
-        if any(self.specs[o]["uid"] == spec["uid"] for o in self.parent if o != h):
-            return "refuse", "duplicate uid"
+        if self.is_detached(target):
+            # the subtree is not part of the forest yet; generated so that nothing collides at this point
+            if any(self.specs[o]["uid"] == spec["uid"] for o in list(self.parent) + self.subtree(self.ancestors_or_self(target)[-1]) if o != h):
+                return "grey", "uid known elsewhere while building a detached subtree"
+            return "accept", None
+        mine = self.subtree(h)
+        for m in mine:
+            if any(self.specs[o]["uid"] == self.specs[m]["uid"] for o in self.parent if o not in mine):
+                return "refuse", "duplicate uid" if m == h else "duplicate uid inside the added subtree"
         return "accept", None
 
     def apply(self, target, h):
+        if self.is_detached(target):
+            self.dparent[h] = target
+            return
+        for m in self.subtree(h):
+            if m in self.dparent:
+                self.parent[m] = self.dparent.pop(m)
         self.parent[h] = target
 
     def snapshot(self):
@@ -251,6 +280,64 @@ def gen_history(rng):
                 target, h = rng.choice(pairs)
                 ops.append({"kind": kind, "target": target, "handle": h, "expect": "refuse", "why": "its own ancestor (re-spelled)"})
                 continue
+        if kind in ("detached-subtree", "detached-dup-subtree"):
+            # a subtree built BOTTOM-UP: children are added to a variant that is not in the forest yet, then the root is attached.
+            # 'dup' flavour: between the two, a top-level variant '<root>-<child>' (id '<root><child>') enters the forest, so the
+            # subtree now carries a UID the forest already has - the attachment must be refused, and only a check that walks
+            # the whole added subtree can know
+            tgt = None if kind == "detached-dup-subtree" or rng.random() < 0.5 else rng.choice([None] + [h0 for h0 in attached if F.depth(h0) < 2])
+            root = new_spec(tgt, "valid")
+            if root is None or root.get("dashed") or "-" in root["id"] or \
+                    any(F.specs[o]["uid"] == root["uid"] or F.specs[o]["uid"].startswith(root["uid"] + "-") for o in F.parent):
+                continue
+            if kind == "detached-dup-subtree" and len(root["id"]) > 6:
+                continue
+            F.specs.append(root)
+            r = len(F.specs) - 1
+            pending = []
+            members = [r]
+            for _k in range(rng.randint(1, 3)):
+                par_h = rng.choice([m for m in members if len(F.ancestors_or_self(m)) + (0 if tgt is None else F.depth(tgt)) < 3] or [r])
+                c = new_spec(par_h, "valid")
+                if c is None or c.get("dashed"):
+                    continue
+                F.specs.append(c)
+                ch = len(F.specs) - 1
+                verdict, why = F.predict(par_h, ch)
+                if verdict != "accept":
+                    F.specs.pop()
+                    continue
+                pending.append({"kind": "detached-child", "target": par_h, "handle": ch, "expect": "accept", "why": None})
+                F.apply(par_h, ch)
+                members.append(ch)
+            if not pending:
+                F.specs.pop()
+                continue
+            ops.extend(pending)
+            if kind == "detached-dup-subtree":
+                first = [m for m in members if F.dparent.get(m) == r][0]
+                a, b = root["id"], F.specs[first]["id"]
+                rival = {"id": a + b, "uid": a + "-" + b, "name": "rival", "type": "variant", "arches": ["x86_64"], "dashed": True}
+                F.specs.append(rival)
+                rh = len(F.specs) - 1
+                verdict, why = F.predict(None, rh)
+                if verdict == "accept" and not any(c0 for c0 in F.children(None) if F.specs[c0]["id"] == a + b):
+                    ops.append({"kind": "valid", "target": None, "handle": rh, "expect": "accept", "why": None})
+                    F.apply(None, rh)
+                    uids.add(rival["uid"])
+                else:
+                    F.specs.pop()
+            verdict, why = F.predict(tgt, r)
+            ops.append({"kind": kind, "target": tgt, "handle": r, "expect": verdict, "why": why})
+            if verdict == "accept":
+                F.apply(tgt, r)
+                for m in members:
+                    uids.add(F.specs[m]["uid"])
+            else:
+                # the refused subtree stays out of the forest; forget it
+                for m in members:
+                    F.dparent.pop(m, None)
+            continue
         if kind in ("attached-elsewhere", "attached-elsewhere-respelled"):
             # a variant that already sits in the forest is offered to ANOTHER container (not its parent, not inside its own subtree)
             pairs = [(t, h0) for h0 in attached for t in [None] + [a for a in attached if F.depth(a) < 3]
@@ -488,6 +575,8 @@ def check_history(ctx, pm, H, seed, exhaustive_queries=False):
         if h not in objs:
             objs[h] = make_variant(pm, ci, F.specs[h])
         v = objs[h]
+        if target is not None and target not in objs:
+            objs[target] = make_variant(pm, ci, F.specs[target])      # the root of a detached subtree
         container = ci.variants if target is None else objs[target]
         verdict, why = F.predict(target, h)
         restore = None
@@ -539,6 +628,12 @@ def check_history(ctx, pm, H, seed, exhaustive_queries=False):
             if got != "accept":
                 ref += 1
                 ctx.count("refused")
+                if op["kind"] in ("detached-subtree", "detached-dup-subtree"):
+                    if why == "duplicate uid inside the added subtree":
+                        ctx.count("detached-subtree-refused-for-inner-uid")
+                    # the refused subtree stays out of the forest
+                    for m in F.subtree(h):
+                        F.dparent.pop(m, None)
         after, dup = real_snapshot(ci)
         if moved:
             # outcome not judged (refusal and a proper move are both sound); judged: the forest afterwards
